@@ -21,8 +21,8 @@ git apply seeded/patch.diff || { echo "patch does not apply" >> $LOG; exit 2; }
 echo "== demo WITH the change (expect fail), 3 runs" >> $LOG
 F=0; for i in 1 2 3; do go test -vet=off -count=1 -run "$RX" $PKG >> $LOG 2>&1 || F=$((F+1)); done
 echo "== unedited suite WITH the change (demo files moved aside; expect pass)" >> $LOG
-mkdir -p /tmp/wt/.aside_$ID; for d in $(git status --porcelain | grep '^??' | awk '{print $2}' | grep '_test.go$'); do mv $d /tmp/wt/.aside_$ID/; done
+mkdir -p /tmp/wt/.aside_$ID; DEMOS=$(git status --porcelain | grep '^??' | awk '{print $2}' | grep '_test.go$'); for d in $DEMOS; do mkdir -p /tmp/wt/.aside_$ID/$(dirname $d); mv $d /tmp/wt/.aside_$ID/$d; done
 go build ./... >> $LOG 2>&1; B=$?
 go test -vet=off -count=1 -timeout 25m $(go list ./... | grep -v '/seeded') >> $LOG 2>&1; S=$?
-mv /tmp/wt/.aside_$ID/* . 2>/dev/null; rmdir /tmp/wt/.aside_$ID 2>/dev/null
+for d in $DEMOS; do mv /tmp/wt/.aside_$ID/$d $d; done; rm -rf /tmp/wt/.aside_$ID
 echo "RESULT demo_without=$A (0=pass) demo_with_failures=$F/3 build=$B suite_with=$S (0=pass)" | tee -a $LOG
